@@ -2,4 +2,5 @@ import Cgm.Lemmas.AuditCmd
 import Cgm.E2E.C07
 import Cgm.E2E.C07b
 import Cgm.E2E.C07g
+import Cgm.E2E.C07i
 #audit_namespace Cg.E2E.C07
